@@ -104,6 +104,11 @@ def draw_convex(rng, family=None, n=None, constrained=True, bounds=True, sense=N
         u = [xs[nm] + 1.0 + abs(q(rng, 0, 2)) for nm in vnames]
         terms.append(["neg", ["sum", ["vfn", "log", ["vrbin", "-", ["arr", u], x]]]])
         terms.append(["bin", "*", ["raw", 0.5, "float"], ["sum", ["vpow", x, 2]]])
+    if vnames and n >= 3 and rng.random() < 0.4:
+        # a weak coupling written as a dot product of two overlapping views of the same vector (|eigenvalues| <= 0.2: f0 stays strongly convex)
+        cp = rng.choice([["dot", ["slice", x, 0, n - 1, None], ["slice", x, 1, n, None]], ["dot", x, ["slice", x, None, None, -1]],
+                         ["dot", ["slice", x, 1, n, None], ["slice", x, 0, n - 1, None]]])
+        terms.append(["bin", "*", ["raw", rng.choice([0.1, -0.1]), "float"], cp])
     for nm in extra:
         v = ["var", nm]
         terms.append(["bin", "*", ["raw", 1.0 + abs(q(rng, 0, 1)), "float"], ["bin", "**", ["bin", "-", v, ["raw", q(rng, -1, 1), "float"]], ["raw", 2, "int"]]])
